@@ -157,6 +157,99 @@ def harness(ck, label, fn, form):
                        "distinct_result_symbols": len(set(c["k"] for c in v["world"].calls))})
 
 
+# ---- lemma: the real aerodynamic-angle getter / setter (the analyses above run with their trigonometric core abstracted) ----------
+def harness_aero_pair(ck):
+    """real Airplane.get_aerodynamic_state / set_aerodynamic_state: (a) Galilean twin get_W(v) == get_0(v - W), set_W(a,b,V) - W == set_0(a,b,V);
+    (b) the inverse-trig atoms of the getter receive the *body-frame air-relative* components: atan2(x_z, x_x), asin(x_y / |x|), |x| with x = R(q)^T (v - W)."""
+    import machupX as MX
+    from machupX.helpers import quat_trans, quat_inv_trans
+    real_get, real_set = AN._patched["get"], AN._patched["set"]
+
+    def run():
+        c = ctx()
+        setup_ctx(c)
+        AN.new_world()
+        sc = MX.Scene({"units": "English", "scene": {"atmosphere": {"rho": 0.0023769}}})
+        sc.add_aircraft("p", family_G("g1"), state={"velocity": [100.0, 0.0, 5.0]})
+        ap = sc._airplanes["p"]
+        q = facade.wrap(np.array([sym("q%d" % i) for i in range(4)], dtype=object))
+        v = facade.wrap(np.array([sym("ve%d" % i) for i in range(3)], dtype=object))
+        W = facade.wrap(np.array([sym("W%d" % i) for i in range(3)], dtype=object))
+        Z = facade.wrap(np.array([exact(0), exact(0), exact(0)], dtype=object))
+        ap.q = q
+        ap.v = v
+        n0 = len(c.events)
+        gW = real_get(ap, v_wind=W)
+        evs = c.events[n0:]
+        ap.v = v - W
+        g0 = real_get(ap, v_wind=Z)
+        x = quat_trans(q, v - W)
+        a_, b_, V_ = sym("sa"), sym("sb"), sym("sV")
+        ap.v = v
+        real_set(ap, alpha=a_, beta=b_, velocity=V_, v_wind=W)
+        sW = list(ap.v)
+        ap.v = v - W
+        real_set(ap, alpha=a_, beta=b_, velocity=V_, v_wind=Z)
+        s0 = list(ap.v)
+        return {"gW": gW, "g0": g0, "evs": evs, "x": list(x), "sW": sW, "s0": s0, "W": list(W)}
+    res = explore(run, assumptions=[z3.Real("sV") > 0], max_paths=4)
+    ck.add_paths(res)
+    for p in res:
+        if not p.ok:
+            ck.inconc("aero pair: %s %r %s" % (p.kind, p.exc, (p.tb or "")[-300:]))
+            continue
+        v = p.value
+        base = list(p.ctx.assumptions) + list(p.ctx.pc)
+        mk = lambda ob: Finding("aeropair", {}, ob.label, ob.model)
+
+        def ob(label, g):
+            return Obligation("aero pair " + label, base + cone_defs(p.ctx, [g]), g, meta={"finding": mk})
+        obs = [ob("getter: Galilean twin (alpha, beta, V)", z3.And(*[zexpr(SR(a)) == zexpr(SR(b)) for a, b in zip(v["gW"], v["g0"])])),
+               ob("setter: Galilean twin (v - W)", z3.And(*[zexpr(SR(a)) - zexpr(SR(w)) == zexpr(SR(b)) for a, w, b in zip(v["sW"], v["W"], v["s0"])]))]
+        kinds = [e[1] for e in v["evs"]]
+        x = v["x"]
+        try:
+            sq = [e for e in v["evs"] if e[1] == "sqrt"][0]
+            at = [e for e in v["evs"] if e[1] == "atan2"][0]
+            asn = [e for e in v["evs"] if e[1] == "asin"][0]
+            g = z3.And(sq[2][0] == zexpr(x[0] * x[0] + x[1] * x[1] + x[2] * x[2]), at[2][0] == zexpr(x[2]), at[2][1] == zexpr(x[0]), asn[2][0] * sq[0] == zexpr(x[1]))
+            obs.append(ob("getter: atan2(x_z, x_x), asin(x_y/|x|), |x| of the body-frame air-relative velocity", g))
+        except IndexError:
+            obs.append(Obligation("aero pair getter structure (sqrt, atan2, asin): %s" % kinds, [], z3.BoolVal(False), meta={"finding": mk}))
+        obs.append(Obligation("aero pair canary", base, zexpr(SR(v["gW"][2])) == zexpr(SR(v["g0"][2])) + 1, canary=True))
+        ck.add(obs)
+
+
+def replay_aeropair(inp):
+    from machupX.helpers import quat_trans
+    import machupX as MX
+    rng = np.random.RandomState(4)
+    bad = []
+    with AN.real_classes():
+        sc = MX.Scene({"units": "English", "scene": {"atmosphere": {"rho": 0.0023769}}})
+        sc.add_aircraft("p", family_G("g1"), state={"velocity": [100.0, 0.0, 5.0]})
+        ap = sc._airplanes["p"]
+        for _ in range(3):
+            q = rng.normal(size=4); q /= np.linalg.norm(q)
+            v = rng.uniform(-1, 1, size=3) * 30 + np.array([100.0, 0, 0]); W = rng.uniform(-20, 20, size=3)
+            ap.q = q
+            ap.v = v.copy(); gW = ap.get_aerodynamic_state(v_wind=W)
+            ap.v = v - W; g0 = ap.get_aerodynamic_state(v_wind=np.zeros(3))
+            x = quat_trans(q, v - W)
+            ref = (np.degrees(np.arctan2(x[2], x[0])), np.degrees(np.arcsin(x[1] / np.linalg.norm(x))), np.linalg.norm(x))
+            if not np.allclose(gW, g0, rtol=1e-9, atol=1e-9):
+                bad.append("get_aerodynamic_state(v, W) = %s but (v - W, 0) gives %s" % (np.round(gW, 5).tolist(), np.round(g0, 5).tolist()))
+            if not np.allclose(gW, ref, rtol=1e-9, atol=1e-9):
+                bad.append("get_aerodynamic_state = %s, body-frame air-relative angles are %s" % (np.round(gW, 5).tolist(), np.round(ref, 5).tolist()))
+            ap.v = v.copy(); ap.set_aerodynamic_state(alpha=4.0, beta=-3.0, velocity=90.0, v_wind=W); sW = ap.v.copy()
+            ap.v = v - W; ap.set_aerodynamic_state(alpha=4.0, beta=-3.0, velocity=90.0, v_wind=np.zeros(3)); s0 = ap.v.copy()
+            if not np.allclose(sW - W, s0, rtol=1e-9, atol=1e-9):
+                bad.append("set_aerodynamic_state with wind: v - W = %s, still air gives %s" % (np.round(sW - W, 5).tolist(), np.round(s0, 5).tolist()))
+            if bad:
+                break
+    return {"reproduced": bool(bad), "key": "aero state getter/setter: " + ("getter" if any("get_" in b for b in bad) else "setter"), "observed": bad[:4], "what": "; ".join(bad[:2])}
+
+
 # ---- replay ---------------------------------------------------------------------------------------------------------
 REAL = {
     "solve_forces": lambda sc: sc.solve_forces(stab_frame=True)[NAME]["total"],
@@ -214,7 +307,7 @@ def replay_twin(inp):
     return {"reproduced": False, "why": "agree at %d states" % len(tried), "observed": tried}
 
 
-REPLAYS = {"twin": replay_twin}
+REPLAYS = {"twin": replay_twin, "aeropair": replay_aeropair}
 
 
 def main(tier, seed, only=None):
@@ -226,6 +319,7 @@ def main(tier, seed, only=None):
     ck.encoded(SC.Scene.stability_derivatives, SC.Scene.damping_derivatives, SC.Scene.control_derivatives, SC.Scene.state_derivatives, SC.Scene.aero_center,
                SC.Scene.pitch_trim, SC.Scene.pitch_trim_using_orientation, SC.Scene.target_CL, SC.Scene.distributions, SC.Scene._get_aircraft_q_inf,
                SC.Scene.add_aircraft, SC.Scene._initialize_wind_getter, AP.Airplane.set_state)
+    ck.encoded(AP.Airplane.get_aerodynamic_state, AP.Airplane.set_aerodynamic_state)
     ck.stub("LLsolve keyed on the air-relative stored state (v_wind_i - v per control point, wind(p) - v), justified by the kernel lemma Hker",
             "AeroADT (wind / frame handling verbatim)")
     ck.assume("uniform wind (property)", "unit quaternion away from gimbal lock", "reals, not floats", "trim loops unrolled once")
@@ -244,6 +338,8 @@ def main(tier, seed, only=None):
             if form == "aero" and label in ("state_derivatives", "pitch_trim_using_orientation", "distributions") and tier != "thorough":
                 continue
             tasks.append(("%s[%s]" % (label, form), lambda c, label=label, fn=fn, form=form: harness(c, label, fn, form)))
+    if not only or "aeropair" in only:
+        tasks.append(("aero pair", harness_aero_pair))
     from symx.harness import run_parallel
     run_parallel(ck, tasks)
     ck.bound(aircraft="family member g5, N=8", state="all symbolic; both state encodings (body velocity vector / airspeed+alpha+beta)", loop_unrolling=1, max_paths=16)
